@@ -52,6 +52,7 @@ def cli_slice(ctx, path, req, limit, serial, outfile, cn, pos):
 def run_case(ctx):
     src = ctx.src
     common.draw_env(ctx)
+    common.prelude(ctx)
     m = mand.designed_world(src)
     path, _ = common.materialise(ctx, m)
     cn = src.draw("normal", 0, 2)
